@@ -346,6 +346,20 @@ def acquire_case(ck, rng, i):
                 want = pa[ents.index(e)]['lifetime']
                 if not (want <= lft['soft_add'] <= want + 5 and lft['hard_add'] == lft['soft_add'] + 10):
                     ck.violation('installed-sa-lifetime-is-not-the-entrys', {'entry': e['index'], 'soft': lft['soft_add'], 'hard': lft['hard_add'], 'configured': want}, sim.case)
+    # the SAs that REPLACE an entry's SAs at a rekey (soft expire of the newest CHILD_SA at A) carry the entry's lifetime again
+    est = [x for x in a.ctl.ike_sas if x.state.name == 'ESTABLISHED' and x.child_sas]
+    if est:
+        child = est[0].child_sas[-1]
+        n0 = len(a.kernel.requests)
+        ent_idx = next((e_['index'] for e_, x_ in zip(ents, pa) if x_['lifetime'] == child.lifetime), None)
+        sim.expire(a, bytes(child.inbound_spi), False, daddr=S.A4)
+        sim.drain()
+        for r_ in a.kernel.requests[n0:]:
+            if r_['msg'] and r_['msg']['name'] == 'NEWSA':
+                lft = r_['msg']['sa']['lft']
+                ck.count('acquire.rekeyed_lifetimes_checked')
+                if not (child.lifetime <= lft['soft_add'] <= child.lifetime + 5 and lft['hard_add'] == lft['soft_add'] + 10):
+                    ck.violation('installed-sa-lifetime-is-not-the-entrys:after-a-rekey', {'entry': ent_idx, 'soft': lft['soft_add'], 'hard': lft['hard_add'], 'configured': child.lifetime}, sim.case)
     # unknown index
     tab0 = [(id(x), x.state.name) for x in a.ctl.ike_sas]
     wire0 = len(sim.wire)
@@ -520,6 +534,7 @@ def run(ck):
 
 def verdict(ck):
     c = ck.counters
+    ck.floor('lifetimes of SAs installed by a rekey compared with the entry', c['acquire.rekeyed_lifetimes_checked'], 20)
     ck.floor('configurations loaded', c['construction.configs'], 250)
     ck.floor('policies compared', c['spd.policies_checked'], 2000)
     ck.floor('restart points', c['restart.points'], 30)
